@@ -350,7 +350,8 @@ func (d *Decoder) PeekFileHeader() (*proto.FileHeader, error) {
 
 // PeekFileId decodes only up to FileId message without decoding the whole reader.
 // The FileId is expected to be present as the first message; however, we don't validate this,
-// as it's an edge case that occurs when a FIT file is poorly encoded.
+// as it's an edge case that occurs when a FIT file is poorly encoded. If the current FIT file sequence
+// has no FileId message at all, a FileId whose fields are all invalid is returned once all its messages are decoded.
 //
 // If we choose to continue, Decode picks up where this left then continue decoding next messages instead of starting from zero.
 func (d *Decoder) PeekFileId() (*mesgdef.FileId, error) {
@@ -361,6 +362,12 @@ func (d *Decoder) PeekFileId() (*mesgdef.FileId, error) {
 		return nil, d.err
 	}
 	for d.fileId == nil {
+		if d.cur >= d.fileHeader.DataSize {
+			// The sequence has no FileId message (poorly encoded). Stop at the end of the sequence's messages instead of
+			// decoding its CRC and the next sequence as messages: there is nothing to peek, all FileId's fields are invalid.
+			// Decode or Discard picks up from here as usual.
+			return mesgdef.NewFileId(nil), nil
+		}
 		if d.err = d.decodeMessage(); d.err != nil {
 			return nil, d.err
 		}
